@@ -37,9 +37,10 @@ TraceGet ==
     /\ IsEvent("Get")
     /\ LET t == Ev.t IN
        /\ t \in Threads
-       /\ CanStepRead(st, t)
        /\ Ev.fn = st.fn                              \* the value obtained is the current binding
-       /\ st' = StepRead(st, t)
+       /\ \/ CanStepRead(st, t) /\ st' = StepRead(st, t)
+          \/ /\ st.pc[t] \in {"write", "body", "restore"}      \* re-read inside the own section: harmless
+             /\ UNCHANGED st
 
 TraceSet ==
     /\ IsEvent("Set")
